@@ -73,6 +73,10 @@ pub fn check(id: &str, tier: Tier) -> i32 {
   if id == "C03" || id == "C01" {
     all_starts.extend(residue_starts().into_iter().filter(|s| ["cursor+1", "cursor+7", "cursor+8", "cursor+9"].contains(&s.name.as_str())));
   }
+  if id != "C11" {
+    // an arena that has been used and cleared is an arena like any other
+    all_starts.push(Start { name: "cleared".into(), setup: vec![Setup::Do(Op::B(Sz::N(40))), Setup::Do(Op::B(Sz::N(16))), Setup::Do(Op::D(0)), Setup::Do(Op::Clear)] });
+  }
   let spec = Spec { alphabet: alphabet.clone(), depth, oracles, sync: true, unsync: true, diff, diff_prop: "C11" };
   let t0 = std::time::Instant::now();
   // pass 1: in-memory cells, depth 4 from every start state (plus cells with minimum segment size 0)
@@ -146,6 +150,13 @@ pub fn check(id: &str, tier: Tier) -> i32 {
     crate::props_grid::c11_rewind_grid(&run);
   }
   if id == "C03" {
+    // addresses (not only offsets) of over-aligned types, also after the backing memory was re-allocated
+    let case = json!({"engine": "buf", "tag": "C03", "part": "big-alignment"});
+    let (n, bad) = crate::props_buf::big_alignment_after_truncate();
+    run.eval(n);
+    for m in bad {
+      run.violation(crate::report::Violation { property: "C03".into(), signature: format!("C03:big-alignment:{}", if m.starts_with("as created") { "as-created" } else { "after-truncate" }), message: m, replay: case.clone() });
+    }
     crate::props_sched::c03_concurrent(&run, thorough);
     c03_layout_grid(&run, thorough);
   }
